@@ -275,7 +275,7 @@ func (c08) Run(c *Ctx, i int) CaseResult {
 	res.Nontrivial = !valid || nsteps >= 2
 	res.Counters = map[string]int{"steps": nsteps, "valid": b2i(valid), "plan_ms": int(dt.Milliseconds())}
 	// nothing left running
-	deadline := time.Now().Add(time.Second)
+	deadline := time.Now().Add(3 * time.Second) // generous: the machine may be busy
 	for runtime.NumGoroutine() > before && time.Now().Before(deadline) {
 		time.Sleep(2 * time.Millisecond)
 	}
